@@ -53,6 +53,7 @@ type c01Block struct {
 	refLine          int
 	seq              string // sequential reference, computed lazily
 	conflicts        int
+	seqs             []uint32
 	sig              []string
 }
 
@@ -121,6 +122,7 @@ func TestVerifC01(t *testing.T) {
 			spec.units, spec.keys = f[4], f[5]
 			b.specs = append(b.specs, spec)
 			b.units = append(b.units, u)
+			b.seqs = append(b.seqs, seq)
 			b.sig = append(b.sig, f[3]+f[5]+f[6])
 			r.Count("tx:pre=" + f[3][:1])
 			for _, a := range strings.Split(f[6], "/") {
@@ -143,12 +145,17 @@ func TestVerifC01(t *testing.T) {
 					t.Fatal(err)
 				}
 			}
+			hEventsStart()
 			out, root, hung := c01Execute(ctx, metrics, b, cores, fetch)
+			events := hEventsStop()
 			r.Emit(l, out)
+			if msg := c01CheckOverlap(b, events); msg != "" {
+				r.Violation("conflicting-txs-overlap", "cores=%d fetch=%d: %s", cores, fetch, msg)
+			}
 			r.Count(fmt.Sprintf("cores:%d/%d", cores, fetch))
 			r.Count(fmt.Sprintf("blocksize:%d", (len(b.txs)+9)/10*10))
 			if hung {
-				r.Violation("execute-hang", "Processor.Execute did not return within 20s (%d txs, cores=%d)", len(b.txs), cores)
+				r.Violation("execute-hang", "Processor.Execute did not return within 120s (%d txs, cores=%d)", len(b.txs), cores)
 				continue
 			}
 			if b.conflicts > 0 {
@@ -176,6 +183,51 @@ func TestVerifC01(t *testing.T) {
 	}
 }
 
+// c01CheckOverlap evaluates the executor guarantee C01 imports, on the observed run: for txs
+// i < j (block order) that conflict, every action body of i ends before any action body of j starts.
+func c01CheckOverlap(b *c01Block, events []hEvent) string {
+	idx := map[uint32]int{}
+	for i, s := range b.seqs {
+		idx[s] = i
+	}
+	first := make([]int, len(b.txs))
+	last := make([]int, len(b.txs))
+	for i := range first {
+		first[i], last[i] = -1, -1
+	}
+	for pos, e := range events {
+		i, ok := idx[e.seq]
+		if !ok {
+			continue
+		}
+		if e.start && first[i] < 0 {
+			first[i] = pos
+		}
+		if !e.start {
+			last[i] = pos
+		}
+	}
+	for j := range b.txs {
+		if first[j] < 0 {
+			continue
+		}
+		kj, _ := b.txs[j].StateKeys(hBalance)
+		for i := 0; i < j; i++ {
+			if first[i] < 0 || last[i] < first[j] {
+				continue
+			}
+			ki, _ := b.txs[i].StateKeys(hBalance)
+			for k, v := range kj {
+				if w, ok := ki[k]; ok && !(v == state.Read && w == state.Read) {
+					return fmt.Sprintf("tx %d (events %d..%d) and tx %d (events %d..%d) conflict on key %d but tx %d started before tx %d had finished",
+						i, first[i], last[i], j, first[j], last[j], hKeyIndex(k), j, i)
+				}
+			}
+		}
+	}
+	return ""
+}
+
 func c01CountConflicts(prev []*chain.Transaction, tx *chain.Transaction) int {
 	n := 0
 	sk, _ := tx.StateKeys(hBalance)
@@ -197,12 +249,12 @@ func c01Processor(metrics *chain.ChainMetrics, rules *genesis.Rules, cores, fetc
 	if cores > 1 {
 		w = workers.NewParallel(cores, 100)
 	}
-	return c01NewProcessor(metrics, rules, w, cores, fetch), w.Stop
+	return c01NewProcessor(metrics, rules, w, cores, fetch, &validitywindowtest.MockTimeValidityWindow[*chain.Transaction]{}), w.Stop
 }
 
-func c01NewProcessor(metrics *chain.ChainMetrics, rules *genesis.Rules, w workers.Workers, cores, fetch int) *chain.Processor {
+func c01NewProcessor(metrics *chain.ChainMetrics, rules *genesis.Rules, w workers.Workers, cores, fetch int, vw chain.ValidityWindow) *chain.Processor {
 	return chain.NewProcessor(trace.Noop, &logging.NoLog{}, &genesis.ImmutableRuleFactory{Rules: rules}, w,
-		hAuthEngines{}, hMeta, hBalance, &validitywindowtest.MockTimeValidityWindow[*chain.Transaction]{}, metrics,
+		hAuthEngines{}, hMeta, hBalance, vw, metrics,
 		chain.Config{TargetBuildDuration: time.Hour, TransactionExecutionCores: cores, StateFetchConcurrency: fetch, TargetTxsSize: 1 << 30})
 }
 
@@ -244,7 +296,7 @@ func c01Execute(ctx context.Context, metrics *chain.ChainMetrics, b *c01Block, c
 			return "err-newroot", ids.Empty, false
 		}
 		return showExecOutput(ctx, x.out), nr, false
-	case <-time.After(20 * time.Second):
+	case <-time.After(120 * time.Second):
 		return "hang", ids.Empty, true
 	}
 }
